@@ -59,7 +59,7 @@ def run(tier):
     ck._distinct.update(("r%d" % i).encode() for i in range(len(lines)))
     if lines:
         ev = json.loads(lines[0])
-        ck.sample({"random": {"p": ev["p"][:20], "q": ev["q"][:20], "kind": ev["kind"], "via": ev["via"]}})
+        ck.sample({"random": {"p": ev.get("p", [])[:20], "q": ev.get("q", [])[:20], "kind": ev.get("kind"), "via": ev.get("via")}})
     maxlen = 4 if tier == "quick" else 5
     cfg = os.path.join(wd, "mc.cfg")
     open(cfg, "w").write("SPECIFICATION Spec\nCONSTANTS MaxLen = %d\n Export = TRUE\n Alphabet = %s\nINVARIANT Emit\nCHECK_DEADLOCK FALSE\n" % (maxlen, ALPHA))
